@@ -1,6 +1,7 @@
 #ifndef COND_EQ_H
 #define COND_EQ_H
 
+#include <cmath>
 #include "mp/common.h"
 #include "mp/flat/redef/redef_base.h"
 #include "mp/flat/constr_std.h"
@@ -84,16 +85,21 @@ public:
                                          1.0 ) );
       auto bNt = GetMC().ComputeBoundsAndType(con.GetBody());
       double cmpEps = GetMC().ComparisonEps( bNt.get_result_type() );
+      double rhs_lo = con.rhs() - cmpEps, rhs_hi = con.rhs() + cmpEps;
+      if (var::INTEGER==bNt.get_result_type()) {  // integer body: nearest integers
+        rhs_lo = std::ceil(con.rhs()) - 1.0;      // strictly below / above rhs
+        rhs_hi = std::floor(con.rhs()) + 1.0;     // (rhs may be fractional)
+      }
       {
         GetMC().AddConstraint(IndicatorConstraint< AlgCon<-1> >(
                                 newvars[0], 1,
                               { con.GetBody(),
-                                con.rhs() - cmpEps }));
+                                rhs_lo }));
       }
       GetMC().AddConstraint(IndicatorConstraint< AlgCon<1> >(
                               newvars[1], 1,
                             { con.GetBody(),
-                              con.rhs() + cmpEps }));
+                              rhs_hi }));
     } // else, skip
   }
 
